@@ -155,6 +155,21 @@ func genC06(g *genCtx) {
 		}
 		g.add(&Case{Kind: "compile", NS: maps[r.intn(len(maps))], Expr: s})
 	}
+	// long inputs: runs of one byte (UTF-8 continuation bytes, invalid lead bytes, NUL, blanks, openers) and of short
+	// units around the sizes at which buffers and messages are cut, alone and in front of / behind a valid expression
+	units := []string{"\x80", "\xbf", "\xc0", "\xff", "\x00", " ", "\t", "a", "(", "[", "'", "/", "-", "\xe2\x82", "\xf0\x9f\x98", "é", "a:", "$", "1.", ".."}
+	for _, u := range units {
+		for _, n := range []int{63, 64, 65, 127, 128, 129, 255, 256, 257, 258, 300, 511, 512, 513, 1000, 4096, 65536} {
+			if len(u)*n > 100000 {
+				continue
+			}
+			run := strings.Repeat(u, n)
+			g.add(&Case{Kind: "compile", Expr: run})
+			g.add(&Case{Kind: "compile", Expr: run + "a"})
+			g.add(&Case{Kind: "compile", Expr: "a[" + run})
+			g.add(&Case{Kind: "compile", Expr: "'" + run})
+		}
+	}
 	// grammar stream (valid expressions must compile)
 	for i := 0; i < g.scale(5000, 50000); i++ {
 		g.add(&Case{Kind: "compile", NS: maps[r.intn(3)], Expr: genAnyExpr(r)})
